@@ -46,6 +46,7 @@ type c11NewArgs struct {
 var c11new = Register("C11", "C11.new", func(a c11NewArgs) *Violation {
 	st := S("C11", "new")
 	st.Eval(1)
+	primedUnderAnotherMode(hashWords(uint64(a.Sig), uint64(a.Exp)), func() { _ = d128.New(a.Sig, a.Exp) })
 	got := ref.Decode(d128.New(a.Sig, a.Exp))
 	if a.Sig == 0 {
 		if !got.IsZero() {
@@ -98,6 +99,7 @@ var c11ldexp = Register("C11", "C11.ldexp", func(a c11LdexpArgs) *Violation {
 	st.Eval(1)
 	f := a.Frac.Dec()
 	nf := a.Frac.Num()
+	primedUnderAnotherMode(hashWords(a.Frac.Hi, a.Frac.Lo, uint64(a.Exp)), func() { _ = d128.Ldexp(f, a.Exp) })
 	gotD := d128.Ldexp(f, a.Exp)
 	got := ref.Decode(gotD)
 	if nf.Class != ref.Finite || nf.IsZero() {
